@@ -77,6 +77,14 @@ package hashmap
 //@   ensures [count_grows_by_one_exactly_when_no_equal_key_was_in_the_selected_slot] em.total == old(em.total) + ((exists k int :: 0 <= k && k < old(len(em.mapArray[slot(h, em.capacity)])) && heq(h, old(em.mapArray[slot(h, em.capacity)][k].Key))) ? 0 : 1)
 //@   ensures [an_equal_key_gets_the_value_in_place] em.total == old(em.total) ==> (exists k int :: 0 <= k && k < old(len(em.mapArray[slot(h, em.capacity)])) && heq(h, old(em.mapArray[slot(h, em.capacity)][k].Key)) && old(em.mapArray[slot(h, em.capacity)][k]).Value == value) && em.mapArray == old(em.mapArray) && em.capacity == old(em.capacity)
 //@   ensures [still_well_formed] HMok(em) && HMplaced(em)
+//@   ensures [every_pair_holds_its_old_value_or_the_one_just_put] forall kv *KeyValue :: {kv.Value} allocated(kv) ==> kv.Value == value || (!fresh(kv) && kv.Value == old(kv.Value))
 //@   loop 1
 //@     invariant [no_equal_key_so_far] forall k int :: {em.mapArray[index][k]} 0 <= k && k <= rangeindex ==> !heq(h, em.mapArray[index][k].Key)
 //@     invariant [nothing_written_yet] index == slot(h, em.capacity) && HMok(em) && HMplaced(em) && em.total == old(em.total) && em.mapArray == old(em.mapArray) && em.capacity == old(em.capacity) && ghost(lock_Lock) - ghost(lock_Unlock) == old(ghost(lock_Lock) - ghost(lock_Unlock)) + 1 && (forall i int :: {em.mapArray[i]} 0 <= i && i < len(em.mapArray) ==> em.mapArray[i] == old(em.mapArray[i])) && (forall i int, j int :: {em.mapArray[i][j]} 0 <= i && i < len(em.mapArray) && 0 <= j && j < len(em.mapArray[i]) ==> em.mapArray[i][j] == old(em.mapArray[i][j]) && em.mapArray[i][j].Key == old(em.mapArray[i][j].Key))
+
+// NewHashMap: an empty, well-formed table when at least one slot is asked for
+//@ func hashmap.NewHashMap
+//@   allocates HashMap, []Bucket
+//@   assigns nothing
+//@   ensures [fresh_empty_table] result != nil && fresh(result) && result.total == 0 && result.capacity == size && result.loadfactor == loadfactor
+//@   ensures [well_formed_when_it_has_a_slot] size >= 1 ==> HMok(result) && HMplaced(result)
